@@ -13,7 +13,8 @@ Definition cstr (k : ntok) : string :=
 Definition inter (k : ntok) : list string :=
   match k with NWord w => [w] | NFlag d => [simple_repr d] | NVal d v => [simple_repr d; v] end.
 
-Definition plain (w : string) : bool := andb (negb (starts_with "-" w)) (negb (is_bracket w)).
+(* a word or value that does not start with a dash - ANY such text, brackets and bars included *)
+Definition plain (w : string) : bool := negb (starts_with "-" w).
 
 Record wf_t (t : list odesc) : Prop := {
   wf_find : forall d, In d t -> ofind t (simple_repr d) = Some d /\ starts_with "-" (simple_repr d) = true;
@@ -33,18 +34,18 @@ Definition tok_ok (t : list odesc) (k : ntok) : Prop :=
 (* ---- second pass ---- *)
 Lemma phase2_inter t (W : wf_t t) : forall toks first,
   Forall (tok_ok t) toks ->
-  phase2 t first (flat_map inter toks) false = Some (map cstr toks).
+  phase2 false t first (flat_map inter toks) false = Some (map cstr toks).
 Proof.
   induction toks as [|k r IH]; intros first F; [reflexivity|].
   inversion F as [|? ? Hk Hr]; subst. specialize (IH first Hr).
   destruct k as [w|d|d v]; cbn [flat_map inter app map cstr].
-  - cbn in Hk. unfold plain in Hk. apply andb_true_iff in Hk as [H1 H2]. apply negb_true_iff in H1.
-    cbn [phase2]. rewrite H1. now rewrite IH.
+  - cbn in Hk. unfold plain in Hk. apply negb_true_iff in Hk.
+    cbn [phase2]. rewrite Hk. now rewrite IH.
   - destruct Hk as [Hin Hnp]. destruct (wf_find t W d Hin) as [Hf Hs].
     cbn [phase2]. rewrite Hs, Hf, Hnp. now rewrite IH.
   - destruct Hk as (Hin & Hp & Hv). destruct (wf_find t W d Hin) as [Hf Hs].
-    unfold plain in Hv. apply andb_true_iff in Hv as [H1 H2]. apply negb_true_iff in H1, H2.
-    cbn [phase2]. rewrite Hs, Hf, Hp. cbn [phase2]. rewrite H1, H2. now rewrite IH.
+    unfold plain in Hv. apply negb_true_iff in Hv.
+    cbn [phase2]. rewrite Hs, Hf, Hp. cbn [phase2]. rewrite Hv. cbn [andb]. now rewrite IH.
 Qed.
 
 (* ---- first pass: the documented spellings of one token (or of a short cluster) ---- *)
@@ -156,7 +157,7 @@ Proof. induction ds as [|d r IH]; cbn; [reflexivity|now rewrite IH]. Qed.
 
 Lemma phase1_word_plain t w : plain w = true -> phase1_word t w = [w].
 Proof.
-  unfold plain. intro H. apply andb_true_iff in H as [H _]. apply negb_true_iff in H.
+  unfold plain. intro H. apply negb_true_iff in H.
   destruct w as [|c r]; [reflexivity|]. cbn in H.
   destruct c as [[] [] [] [] [] [] [] []]; try reflexivity. discriminate H.
 Qed.
